@@ -43,7 +43,7 @@ CLAIMED = {
    note="Trusted: simulator seams; files attributed to requests by liveness (any request in progress), not by name.",
    technique="deterministic simulation with fault injection inside uploads (disconnect offsets, disk errors, task cancellation); per-step directory invariant"),
  "C11": dict(cat="exploration", sec="3 C11", engine="sse",
-   text="Response::event_stream with the real bounded channel, senders, receiver, response writer and chunked encoder; the writer future is polled by hand between sender steps and only when its waker fired; EVERY interleaving of up to 5 (quick) / 6 (thorough) steps over {writer poll, send, clone, disconnect, drop} for up to 3 senders, plus sampled longer ones with 1-4+ senders, queue overrun, stalled and disappearing clients; event contents over the awkward classes. Independent chunked decoder + independent WHATWG event-stream parser; accepted events must equal dispatched events exactly once, in order; no injected fields; terminating chunk iff all senders gone. Second level through the full simulated server.",
+   text="Response::event_stream with the real bounded channel, senders, receiver, response writer and chunked encoder; the writer future is polled by hand between sender steps and only when its waker fired; EVERY interleaving of up to 5 (quick) / 7 (thorough) steps over {writer poll, send, clone, disconnect, drop} for up to 3 senders, plus sampled longer ones with 1-4+ senders, queue overrun, stalled and disappearing clients; event contents over the awkward classes. Independent chunked decoder + independent WHATWG event-stream parser; accepted events must equal dispatched events exactly once, in order; no injected fields; terminating chunk iff all senders gone. Second level through the full simulated server.",
    note="Trusted: the SSE parser (oracle/sse.rs), chunked decoder. Two genuine defects are recorded as known findings (blank line pinned by the test suite; events larger than the read buffer) and matched by clause + detail.",
    technique="deterministic simulation of sender/writer interleavings with lost-wake-up detection; independent EventSource parser as oracle"),
  "C12": dict(cat="exploration", sec="3 C12", engine="server",
